@@ -15,7 +15,8 @@ LEVEL = "exploration"
 DEADLINE = 300
 RULE = ("cases = MapSpec pipelines from vlib.mapgen (VERIF_SEED) that have an axis coming from a root input which no consumer "
         "reduces (own analysis); that axis (sometimes two) is partitioned into ints (positive and negative), contiguous slices "
-        "and negative-step slices with their complement; the parts run in shuffled order with cleanup=False after the first; "
+        "and negative-step slices with their complement (file_array storage, every third partition with the dict storage "
+        "persisted between parts); the parts run in shuffled order with cleanup=False after the first; "
         "monitors after every part: per-output stored-mask == union of selections so far, call log == selected-and-not-stored; "
         "after all parts: load_outputs == denotation and a final full run logs zero calls; requests fixing a reduced axis / an "
         "unknown axis / an out-of-range index must raise before any call; the same for create_learners with and without "
@@ -123,8 +124,8 @@ def stored_indices(case, f, folder):
 
 
 # ------------------------------------------------------------------------------- partitioned maps
-def run_partition(v, case, env, exp_calls, axes, parts, order_seed, scratch, tag):
-    w = dict(case=mapgen.describe(case), axes=axes, parts=[[str(s) for s, _ in p] for p in parts])
+def run_partition(v, case, env, exp_calls, axes, parts, order_seed, scratch, tag, storage="file_array"):
+    w = dict(case=mapgen.describe(case), axes=axes, parts=[[str(s) for s, _ in p] for p in parts], storage=storage)
     combos = list(itertools.product(*parts))
     random.Random(order_seed).shuffle(combos)
     folder = os.path.join(scratch, f"part-{tag}")
@@ -142,7 +143,7 @@ def run_partition(v, case, env, exp_calls, axes, parts, order_seed, scratch, tag
         probes.log_clear(log)
         try:
             with quiet():
-                pipeline.map(inputs, run_folder=folder, internal_shapes=ish, parallel=False, storage="file_array",
+                pipeline.map(inputs, run_folder=folder, internal_shapes=ish, parallel=False, storage=storage,
                              fixed_indices=fixed, cleanup=first)
         except Exception as e:  # noqa: BLE001
             v.bad(exc_sig(e, "refused-fixed_indices"), f"valid fixed_indices={fixed} refused: {exc_msg(e)}", fixed=str(fixed), **w)
@@ -179,16 +180,17 @@ def run_partition(v, case, env, exp_calls, axes, parts, order_seed, scratch, tag
                     v.bad("part-mask", f"after part {fixed}: stored elements of {f['outs'][0]} = {sorted(st)}, expected {sorted(done[f['name']])}",
                           fixed=str(fixed), **w)
                     return False
-    return final_full_run(v, case, env, pipeline, inputs, ish, folder, log, w, "partition")
+    v.count(f"partitions:{storage}")
+    return final_full_run(v, case, env, pipeline, inputs, ish, folder, log, w, "partition", storage)
 
 
-def final_full_run(v, case, env, pipeline, inputs, ish, folder, log, w, ctx):
+def final_full_run(v, case, env, pipeline, inputs, ish, folder, log, w, ctx, storage="file_array"):
     from pipefunc.map import load_outputs
 
     probes.log_clear(log)
     try:
         with quiet():
-            res = pipeline.map(inputs, run_folder=folder, internal_shapes=ish, parallel=False, storage="file_array", cleanup=False)
+            res = pipeline.map(inputs, run_folder=folder, internal_shapes=ish, parallel=False, storage=storage, cleanup=False)
     except Exception as e:  # noqa: BLE001
         v.bad(exc_sig(e, f"final-run/{ctx}"), f"final full run raised {exc_msg(e)}", **w)
         return False
@@ -333,7 +335,8 @@ def run_case(desc):
             plist = partitions(case["sizes"][a], rng)
             for pi, part in enumerate(plist):
                 for o in range(desc["orders"]):
-                    ok = run_partition(v, case, env, exp_calls, [a], [part], f"{i}:{pi}:{o}", scratch, f"{i}-{pi}-{o}")
+                    ok = run_partition(v, case, env, exp_calls, [a], [part], f"{i}:{pi}:{o}", scratch, f"{i}-{pi}-{o}",
+                                       storage=("dict" if (i + pi) % 3 == 0 else "file_array"))
                     if len(part) >= 2:
                         keys.append(f"{mapgen.signature(case)}|{a}|{[str(s) for s, _ in part]}|{o}")
                     if not ok:
@@ -355,6 +358,8 @@ def finalize(agg, tier, seed):
     floors = []
     if c.get("partitioned_runs", 0) < 500:
         floors.append(f"only {c.get('partitioned_runs', 0)} partitioned runs (< 500)")
+    if c.get("partitions:dict", 0) < 30:
+        floors.append(f"only {c.get('partitions:dict', 0)} partitions with the dict storage (< 30)")
     if c.get("learner_executions", 0) < 100:
         floors.append(f"only {c.get('learner_executions', 0)} learner executions (< 100)")
     if c.get("negative_step_selections", 0) < 50:
